@@ -46,6 +46,17 @@ type Term struct {
 	I     string // optional Int-sorted text equal to the signed value of this BV
 	Head  *Term  // for str.++ terms: constant first part
 	Tail  *Term  // for str.++ terms: the rest after Head
+	BS    *BStr  // byte-vector representation (bvstr mode); S is unused then
+	BSName string
+}
+
+func anyBS(ts ...*Term) bool {
+	for _, t := range ts {
+		if t != nil && t.BS != nil && !t.Const {
+			return true
+		}
+	}
+	return false
 }
 
 func mask(w int) uint64 {
@@ -89,6 +100,9 @@ func Bool(b bool) *Term {
 	}
 	return &Term{S: "false", Sort: SBool, Const: true, U: 0}
 }
+
+// BVStrMode: symbolic strings are bounded byte vectors (set once per process before exploring).
+var BVStrMode bool
 
 var True = Bool(true)
 var False = Bool(false)
@@ -177,6 +191,25 @@ func Ite(c, a, b *Term) *Term {
 	if a.Sort.K == KBool {
 		return Or(And(c, a), And(Not(c), b))
 	}
+	if a.Sort.K == KStr && anyBS(a, b) {
+		x, y := bsOf(a), bsOf(b)
+		out := &BStr{ctx: pickCtx(x, y), Len: Ite(c, x.Len, y.Len)}
+		n := len(x.B)
+		if len(y.B) > n {
+			n = len(y.B)
+		}
+		for i := 0; i < n; i++ {
+			xb, yb := BV(8, 0), BV(8, 0)
+			if i < len(x.B) {
+				xb = x.B[i]
+			}
+			if i < len(y.B) {
+				yb = y.B[i]
+			}
+			out.B = append(out.B, Ite(c, xb, yb))
+		}
+		return bsTerm(out)
+	}
 	t := &Term{S: "(ite " + c.S + " " + a.S + " " + b.S + ")", Sort: a.Sort}
 	if a.I != "" && b.I != "" {
 		t.I = "(ite " + c.S + " " + a.I + " " + b.I + ")"
@@ -193,6 +226,9 @@ func Eq(a, b *Term) *Term {
 			return Bool(a.Str == b.Str)
 		}
 		return Bool(a.U == b.U)
+	}
+	if a.Sort.K == KStr && anyBS(a, b) {
+		return bsEq(bsOf(a), bsOf(b))
 	}
 	if a.S == b.S {
 		return True
@@ -446,6 +482,9 @@ func StrLen(s *Term) *Term {
 	if s.Const {
 		return BV(64, uint64(len(s.Str)))
 	}
+	if s.BS != nil {
+		return s.BS.Len
+	}
 	if s.Head != nil {
 		return Arith("+", BV(64, uint64(len(s.Head.Str))), StrLen(s.Tail), true)
 	}
@@ -461,6 +500,9 @@ func StrConcat(a, b *Term) *Term {
 	}
 	if b.Const && b.Str == "" {
 		return a
+	}
+	if anyBS(a, b) {
+		return bsTerm(bsConcat(bsOf(a), bsOf(b)))
 	}
 	t := &Term{S: "(str.++ " + a.S + " " + b.S + ")", Sort: SStr}
 	if a.Const {
@@ -483,6 +525,9 @@ func StrByte(s, idx *Term) *Term {
 	if s.Const && idx.Const && idx.U < uint64(len(s.Str)) {
 		return BV(8, uint64(s.Str[idx.U]))
 	}
+	if s.BS != nil {
+		return bsByteAt(s.BS, idx)
+	}
 	if s.Head != nil && idx.Const && idx.U < uint64(len(s.Head.Str)) {
 		return BV(8, uint64(s.Head.Str[idx.U]))
 	}
@@ -492,6 +537,9 @@ func StrByte(s, idx *Term) *Term {
 func StrSub(s, lo, hi *Term) *Term {
 	if s.Const && lo.Const && hi.Const && lo.U <= hi.U && hi.U <= uint64(len(s.Str)) {
 		return Str(s.Str[lo.U:hi.U])
+	}
+	if s.BS != nil {
+		return bsTerm(bsSub(s.BS, lo, hi))
 	}
 	// s = Head ++ Tail, slice [len(Head) : len(s)] == Tail
 	if s.Head != nil && lo.Const && lo.U == uint64(len(s.Head.Str)) && hi.S == StrLen(s).S {
@@ -505,12 +553,18 @@ func StrContains(s, sub *Term) *Term {
 	if s.Const && sub.Const {
 		return Bool(strings.Contains(s.Str, sub.Str))
 	}
+	if anyBS(s, sub) {
+		return bsContains(bsOf(s), bsOf(sub))
+	}
 	return &Term{S: "(str.contains " + s.S + " " + sub.S + ")", Sort: SBool}
 }
 
 func StrPrefixOf(pre, s *Term) *Term {
 	if s.Const && pre.Const {
 		return Bool(strings.HasPrefix(s.Str, pre.Str))
+	}
+	if anyBS(s, pre) {
+		return bsPrefix(bsOf(pre), bsOf(s))
 	}
 	return &Term{S: "(str.prefixof " + pre.S + " " + s.S + ")", Sort: SBool}
 }
@@ -519,12 +573,21 @@ func StrSuffixOf(suf, s *Term) *Term {
 	if s.Const && suf.Const {
 		return Bool(strings.HasSuffix(s.Str, suf.Str))
 	}
+	if anyBS(s, suf) {
+		return bsSuffix(bsOf(suf), bsOf(s))
+	}
 	return &Term{S: "(str.suffixof " + suf.S + " " + s.S + ")", Sort: SBool}
 }
 
 func StrReplaceAll(s, old, nw *Term) *Term {
 	if s.Const && old.Const && nw.Const {
 		return Str(strings.ReplaceAll(s.Str, old.Str, nw.Str))
+	}
+	if s.BS != nil {
+		if !old.Const || !nw.Const {
+			panic("bvstr ReplaceAll needs constant pattern and replacement")
+		}
+		return bsTerm(bsReplaceAll(s.BS, old.Str, nw.Str))
 	}
 	// Go: empty old inserts between runes; SMT-LIB: empty pattern leaves s unchanged.
 	// Callers only use non-empty constant patterns (checked in extern.go).
@@ -535,12 +598,18 @@ func StrLess(a, b *Term) *Term {
 	if a.Const && b.Const {
 		return Bool(a.Str < b.Str)
 	}
+	if anyBS(a, b) {
+		return bsLess(bsOf(a), bsOf(b))
+	}
 	return &Term{S: "(str.< " + a.S + " " + b.S + ")", Sort: SBool}
 }
 
 func StrFromCode(b *Term) *Term {
 	if b.Const {
 		return Str(string([]byte{byte(b.U)}))
+	}
+	if BVStrMode {
+		return bsTerm(&BStr{Len: BV(64, 1), B: []*Term{b}})
 	}
 	return &Term{S: "(str.from_code " + intOf(b) + ")", Sort: SStr}
 }
